@@ -771,69 +771,84 @@ def check_derived_views(ctx, cfg, rule="C01.V"):
         if not any(s_.get("k") == "assign" and s_["rv"].get("k") in ("ref", "rawptr") and s_["rv"]["p"]["p"] and s_["rv"]["p"]["p"][-1] == "*" for blk in b["mir"]["blocks"] for s_ in blk["stmts"]) \
                 and not any(blk["term"]["k"] == "call" and blk["term"]["f"].get("k") == "fn" and "from_raw_parts" in blk["term"]["f"]["def"] for blk in b["mir"]["blocks"]):
             continue
-        a = ctx.analysis(cfg, b["key"])
-        sites = []
-        for i, d in enumerate(a.derefs):
-            p_ = d["ptr"]
-            if not d.get("ref") or p_[0] != "P":
-                continue
-            r = resolve(a, b, p_)
-            if r is None:
-                continue
-            ext, off0, par = r
-            pt = d["pointee"]
-            if pt.get("k") == "slice":
-                if p_[3] is None:
+        def judge(a):
+            out, cnt, nontriv = [], 0, 0
+            sites = []
+            for i, d in enumerate(a.derefs):
+                p_ = d["ptr"]
+                if not d.get("ref") or p_[0] != "P":
                     continue
-                size = p_[3] * a.tenv.size(pt["t"])
-            else:
-                size = a.tenv.size(pt)
-            if size is None:
-                continue
-            sites.append((i, d, ext, p_[2] + off0, size, par, pt))
-        # slices put together from a pointer into such an object and a length: the same obligation with size = len * size_of::<T>()
-        for j, c in enumerate(a.calls):
-            if c.fn not in ("core::slice::from_raw_parts", "core::slice::from_raw_parts_mut", "core::ptr::slice_from_raw_parts", "core::ptr::slice_from_raw_parts_mut"):
-                continue
-            if c.ret is None or c.ret[0] != "P" or c.ret[3] is None or not c.targs:
-                continue
-            r = resolve(a, b, c.ret)
-            if r is None:
-                continue
-            ext, off0, par = r
-            esz = a.tenv.size(c.targs[0])
-            if esz is None:
-                continue
-            sites.append((1000 + j, {"facts": c.facts}, ext, c.ret[2] + off0, c.ret[3] * esz, par, {"k": "slice", "t": c.targs[0]}))
-        for i, d, ext, off, size, par, pt in sites:
-            n += 1
-            if not off.t and size == ext:
-                continue   # the whole object
-            nontrivial += 1
-            pf = a.poly_facts(d["facts"])
-            if par is not None:
-                pf = pf + arg_range(b, par[0]) + par[0].poly_facts(par[1].get("facts", frozenset()))
-            ok = prove((">=", off), pf) and prove((">=", ext - off - size), pf)
-            if not ok:
-                # compare in elements instead of bytes when offset, size and extent are all multiples of one element size S: for S > 0 the
-                # inequality in bytes is the inequality in elements, for S == 0 all three are 0 and the view is trivially inside
-                def div_atom(q, at_):
-                    out = {}
-                    for mono, c_ in q.t.items():
-                        if at_ not in mono:
-                            return None
-                        m2 = list(mono)
-                        m2.remove(at_)
-                        out[tuple(m2)] = out.get(tuple(m2), 0) + c_
-                    return Poly(out)
-                for at_ in sorted({x_ for x_ in ext.atoms() if isinstance(x_, tuple) and x_ and x_[0] == "S"}, key=repr):
-                    o2, s2, e2 = div_atom(off, at_), div_atom(size, at_), div_atom(ext, at_)
-                    if o2 is not None and s2 is not None and e2 is not None and prove((">=", o2), pf) and prove((">=", e2 - o2 - s2), pf):
-                        ok = True
-                        break
-            from .tys import tstr as _ts
-            ctx.ob(rule, "%s#view#%d" % (b["key"], i), ok, "reference to %s manufactured at byte offset %r of an object of %r bytes; inside the object under the dominating guards%s: %s" % (
-                _ts(pt), off, ext, " and the range of the closure's argument" if par is not None else "", ok), at=b["at"], cfg=cfg, frozen=False)
+                r = resolve(a, b, p_)
+                if r is None:
+                    continue
+                ext, off0, par = r
+                pt = d["pointee"]
+                if pt.get("k") == "slice":
+                    if p_[3] is None:
+                        continue
+                    size = p_[3] * a.tenv.size(pt["t"])
+                else:
+                    size = a.tenv.size(pt)
+                if size is None:
+                    continue
+                sites.append((i, d, ext, p_[2] + off0, size, par, pt))
+            # slices put together from a pointer into such an object and a length: the same obligation with size = len * size_of::<T>()
+            for j, c in enumerate(a.calls):
+                if c.fn not in ("core::slice::from_raw_parts", "core::slice::from_raw_parts_mut", "core::ptr::slice_from_raw_parts", "core::ptr::slice_from_raw_parts_mut"):
+                    continue
+                if c.ret is None or c.ret[0] != "P" or c.ret[3] is None or not c.targs:
+                    continue
+                r = resolve(a, b, c.ret)
+                if r is None:
+                    continue
+                ext, off0, par = r
+                esz = a.tenv.size(c.targs[0])
+                if esz is None:
+                    continue
+                sites.append((1000 + j, {"facts": c.facts}, ext, c.ret[2] + off0, c.ret[3] * esz, par, {"k": "slice", "t": c.targs[0]}))
+            for i, d, ext, off, size, par, pt in sites:
+                cnt += 1
+                if not off.t and size == ext:
+                    continue   # the whole object
+                nontriv += 1
+                pf = a.poly_facts(d["facts"])
+                if par is not None:
+                    pf = pf + arg_range(b, par[0]) + par[0].poly_facts(par[1].get("facts", frozenset()))
+                ok = prove((">=", off), pf) and prove((">=", ext - off - size), pf)
+                if not ok:
+                    # compare in elements instead of bytes when offset, size and extent are all multiples of one element size S: for S > 0 the
+                    # inequality in bytes is the inequality in elements, for S == 0 all three are 0 and the view is trivially inside
+                    def div_atom(q, at_):
+                        out = {}
+                        for mono, c_ in q.t.items():
+                            if at_ not in mono:
+                                return None
+                            m2 = list(mono)
+                            m2.remove(at_)
+                            out[tuple(m2)] = out.get(tuple(m2), 0) + c_
+                        return Poly(out)
+                    for at_ in sorted({x_ for x_ in ext.atoms() if isinstance(x_, tuple) and x_ and x_[0] == "S"}, key=repr):
+                        o2, s2, e2 = div_atom(off, at_), div_atom(size, at_), div_atom(ext, at_)
+                        if o2 is not None and s2 is not None and e2 is not None and prove((">=", o2), pf) and prove((">=", e2 - o2 - s2), pf):
+                            ok = True
+                            break
+                from .tys import tstr as _ts
+                out.append(("%s#view#%d" % (b["key"], i), ok, "reference to %s manufactured at byte offset %r of an object of %r bytes; inside the object under the dominating guards%s: %s" % (
+                    _ts(pt), off, ext, " and the range of the closure's argument" if par is not None else "", ok)))
+            return out, cnt, nontriv
+        res, c1, c2 = judge(ctx.analysis(cfg, b["key"]))
+        if any(not ok for _k, ok, _d in res) and b["kind"] != "Closure":
+            # a guard may reach the reborrow through a merged boolean (`assert!(matches!(len.checked_sub(N), Some(0)))`): judge the tree-shaped body
+            # with the crate-local helpers expanded, where every copy of the site lies on one path with that path's own facts
+            a2 = ctx.analysis_inl(cfg, b["key"], split=True, force="*", tag="views")
+            if a2 is not None:
+                res2, c1b, c2b = judge(a2)
+                if res2 and all(ok for _k, ok, _d in res2):
+                    res = [("%s#view#tree" % b["key"], True, "%d site(s) on the tree-shaped, fully expanded body, each inside its object under the facts of its own path" % len(res2))]
+        n += c1
+        nontrivial += c2
+        for k_, ok_, d_ in res:
+            ctx.ob(rule, k_, ok_, d_, at=b["at"], cfg=cfg, frozen=False)
     ctx.ob(rule, "sweep (%s)" % cfg, n >= 3, "reborrows of pointers into sized objects handed in by reference: %d, of which %d view a part of the object or a differently sized type" % (n, nontrivial), cfg=cfg)
     return n
 
